@@ -10037,3 +10037,81 @@ func ruleSeekPrivateTrie(c *Ctx) {
 		c.Fail("seek-private-trie", c.P.Pos(fd.Decl.Pos()), "TrieStore.Seek uses "+strings.Join(bad, ", ")+": Seek runs in the goroutine of a storage iterator (SeekAsync) while the VM thread calls Get on the same TrieStore; Get re-links the nodes of that trie and re-assigns its root, and the traversal Seek drives re-links the nodes it is handed - two goroutines write the same interface-typed fields without synchronisation (the race detector reports it; a torn interface value is a crash or a wrong node)")
 	}
 }
+
+// ruleGCAtomic (C09): SeekGC is read-decide-delete: it walks the pairs of a range, asks the handler about each and
+// deletes what the handler does not want to keep. The handler's answer is about the value it was shown; a flush
+// (PutChangeSet, what Persist of the layer above does) that lands between the walk and the delete replaces that value
+// with one the handler never saw - and would have kept - and the delete then removes a committed key, a result no
+// serial order of collection and flush produces. Every access being under the mutex (the lockset) is not enough: the
+// in-memory backend holds the write lock once around the whole walk, the walk itself is given no-op lock functions,
+// and the handler passed to it takes no lock of its own.
+func ruleGCAtomic(c *Ctx) {
+	fd := c.P.Func("pkg/core/storage", "MemoryStore", "SeekGC")
+	if fd == nil {
+		c.Lost("gc-atomic.anchor", "MemoryStore.SeekGC not found")
+		return
+	}
+	f := c.P.NewFuncCFG(fd)
+	info := f.Info
+	var lockPos, unlockPos, seekPos token.Pos
+	lockInLit := false
+	var seekCall *ast.CallExpr
+	isMut := func(call *ast.CallExpr, name string) bool {
+		se, ok := ast.Unparen(call.Fun).(*ast.SelectorExpr)
+		if !ok || se.Sel.Name != name {
+			return false
+		}
+		inner, ok := ast.Unparen(se.X).(*ast.SelectorExpr)
+		return ok && inner.Sel.Name == "mut"
+	}
+	var walk func(n ast.Node, inLit bool)
+	walk = func(n ast.Node, inLit bool) {
+		ast.Inspect(n, func(x ast.Node) bool {
+			switch y := x.(type) {
+			case *ast.FuncLit:
+				if x != n {
+					walk(y.Body, true)
+					return false
+				}
+			case *ast.CallExpr:
+				switch {
+				case isMut(y, "Lock") || isMut(y, "RLock"):
+					if inLit {
+						lockInLit = true
+					} else if isMut(y, "Lock") && lockPos == token.NoPos {
+						lockPos = y.Pos()
+					}
+				case isMut(y, "Unlock"):
+					if !inLit {
+						unlockPos = y.Pos()
+					}
+				default:
+					if fn := calleeFunc(info, y); fn != nil && fn.Name() == "seek" && !inLit {
+						seekPos, seekCall = y.Pos(), y
+					}
+				}
+			}
+			return true
+		})
+	}
+	walk(fd.Decl.Body, false)
+	// the lock functions handed to the walk are no-ops (the lock is held already): not methods of the mutex
+	passesMutex := false
+	if seekCall != nil {
+		for _, a := range seekCall.Args {
+			if se, ok := ast.Unparen(a).(*ast.SelectorExpr); ok {
+				if inner, ok := ast.Unparen(se.X).(*ast.SelectorExpr); ok && inner.Sel.Name == "mut" {
+					passesMutex = true
+				}
+			}
+		}
+	}
+	switch {
+	case seekCall == nil:
+		c.Lost("gc-atomic.shape", "MemoryStore.SeekGC no longer walks the range through seek()")
+	case lockPos == token.NoPos || lockPos > seekPos || (unlockPos != token.NoPos && unlockPos < seekPos) || lockInLit || passesMutex:
+		c.Fail("gc-atomic", c.P.Pos(fd.Decl.Pos()), "MemoryStore.SeekGC does not hold the store's write lock from before the walk until after the last delete (it locks inside the handler, or hands the mutex's own lock functions to the walk): a PutChangeSet can land between the moment the handler was shown a value and the delete, and the collector removes a value that was committed after it looked - the key is gone for Get and for every scan, through the cache layers as well")
+	default:
+		c.OK("gc-atomic", c.P.Pos(fd.Decl.Pos()), "walk, decision and deletes of SeekGC happen under one hold of the write lock")
+	}
+}
